@@ -223,15 +223,31 @@ impl SelectorsParser {
     fn exceeds_max_nesting_depth(selector: &str) -> bool {
         let mut depth = 0usize;
         let mut quote = None;
-        let mut bytes = selector.bytes();
+        let mut bytes = selector.bytes().peekable();
 
         while let Some(b) = bytes.next() {
             match (quote, b) {
                 (_, b'\\') => {
                     bytes.next();
                 }
+                // NOTE: an unescaped newline ends a (bad) string.
+                (Some(_), b'\n' | b'\r' | b'\x0C') => quote = None,
                 (Some(q), _) if b == q => quote = None,
                 (Some(_), _) => {}
+                // NOTE: quotes and brackets inside of a comment are not tokens.
+                (None, b'/') if bytes.peek() == Some(&b'*') => {
+                    bytes.next();
+
+                    let mut prev = 0;
+
+                    for c in bytes.by_ref() {
+                        if prev == b'*' && c == b'/' {
+                            break;
+                        }
+
+                        prev = c;
+                    }
+                }
                 (None, b'"' | b'\'') => quote = Some(b),
                 (None, b'(' | b'[') => {
                     depth += 1;
